@@ -440,6 +440,7 @@ func (db *DB) CompactRange(r util.Range) error {
 	// Lock writer.
 	select {
 	case db.writeLockC <- struct{}{}:
+		verifTrace(db.s, "x:lock", 2)
 	case err := <-db.compPerErrC:
 		return err
 	case <-db.closeC:
@@ -455,14 +456,17 @@ func (db *DB) CompactRange(r util.Range) error {
 	if isMemOverlaps(db.s.icmp, mdb.DB, r.Start, r.Limit) {
 		// Memdb compaction.
 		if _, err := db.rotateMem(0, false); err != nil {
+			verifTrace(db.s, "x:unlock", 2)
 			<-db.writeLockC
 			return err
 		}
+		verifTrace(db.s, "x:unlock", 2)
 		<-db.writeLockC
 		if err := db.compTriggerWait(db.mcompCmdC); err != nil {
 			return err
 		}
 	} else {
+		verifTrace(db.s, "x:unlock", 2)
 		<-db.writeLockC
 	}
 
@@ -479,6 +483,7 @@ func (db *DB) SetReadOnly() error {
 	// Lock writer.
 	select {
 	case db.writeLockC <- struct{}{}:
+		verifTrace(db.s, "x:lock", 3)
 		db.compWriteLocking = true
 	case err := <-db.compPerErrC:
 		return err
